@@ -79,6 +79,9 @@ func eofTest(c ssa.Value, e ssa.Value) (bool, bool) {
 // other path must reach a return that returns e itself (phis are resolved by
 // the predecessor taken) or a panic. Re-entering a block already on the path
 // (a loop iteration) without having returned e drops the error.
+// strictErrorIdentity: set while a rule needs the very error (or a %w wrap of it) to be returned.
+var strictErrorIdentity bool
+
 func errorReturnedWhenNonNil(e ssa.Value) (bool, string) { return errorReturnedWhenNonNilF(e, nil) }
 
 // errorReturnedWhenNonNilF: flag (optional) is a bool known to be true whenever e is non-nil; its false side is exempt.
@@ -164,7 +167,11 @@ func errorReturnedWhenNonNilF(e ssa.Value, flag ssa.Value) (bool, string) {
 				}
 			}
 			// the failure is reported under another name: a sentinel or a freshly made error is returned instead
+			// (not accepted where the identity of the error matters: sentinel propagation)
 			for _, r := range x.Results {
+				if strictErrorIdentity {
+					break
+				}
 				if (isErrorType(r.Type()) || isErrPointerResult(r)) && !isNilConst(r) && definitelyNonNilError(r, b) {
 					return
 				}
